@@ -3,7 +3,10 @@ C12 - listeners run by priority then registration order until propagation stops.
 
 A case is a history of operations on ONE fresh `EventDispatcher`:
 
-  ["reg",  e, p, stops, k]   add_listener(EVENTS[e], listener k, p)   (p None: the default priority)
+  ["reg",  e, p, stops, k]   add_listener(EVENTS[e], listener k, p)   (p None: the default priority).  A listener id
+                             may occur in several registrations: THE SAME callable is registered again (for the same
+                             or another event, at the same or another priority); what listener k does (`stops`) is
+                             fixed by its first registration
   ["disp", e, ev]            dispatch(EVENTS[e], event)   ev: "none" (no event passed), "fresh", "stopped" (stock
                              `Event`), or an object of a USER subclass of `Event` that implements the public stop
                              protocol itself: "fwd" / "fwd-stopped" (stop_propagation / is_propagation_stopped
@@ -15,7 +18,9 @@ A case is a history of operations on ONE fresh `EventDispatcher`:
   ["get",  e|None]           get_listeners(name or nothing)
   ["prio", e, k]             get_listener_priority(EVENTS[e], listener k)
 
-Listener k is a recording callable `(event, event_name, dispatcher)`; when `stops` it calls
+Listener k is a recording callable `(event, event_name, dispatcher)` - a function object, or (every second case, odd
+k) the bound method `owner_k.on`, looked up anew for every registration and query, so that a listener registered twice
+is then two EQUAL BUT NOT IDENTICAL callables; when `stops` it calls
 `event.stop_propagation()`; it reports its call to events that have a `note_call()`.  With `"probe": true` the pure queries (has_listeners x 4,
 get_listener_priority for both registering events x every listener + a stranger, and once for
 the third event) are appended to the history, so the exhaustive enumeration (which contains
@@ -55,12 +60,18 @@ LEVEL_NOTE = ("Trusted: Lean kernel + propext/Quot.sound/Classical.choice, the h
               "implement it faithfully (state forwarded to a wrapped event / kept under an own attribute) the model is "
               "the stock flag (theorem custom_event_faithful says why), the class that reports itself stopped after N "
               "calls is modelled (dispatchN, theorem dispatch_budget_spec). Listeners that "
-              "raise, re-enter the dispatcher or are registered twice are outside the generated histories (the "
-              "theorems cover double registration, the correspondence does not). That no callable is registered twice "
+              "raise or re-enter the dispatcher are outside the generated histories. A callable registered SEVERAL "
+              "TIMES (same object, or equal bound methods of one object; for one event at the same or at different "
+              "priorities, or for two events) is part of the histories: the order theorems (dispatch_spec, "
+              "query_get_listeners, callSeq_each_once, registration_called_per_registration) speak about REGISTRATIONS "
+              "and need no hypothesis - one call per registration, at that registration's rank; only "
+              "get_listener_priority of a callable registered under several priorities is not fixed by the statement "
+              "(query_get_priority: one of them; the model answers what the code answers - the first priority bucket "
+              "in dict order - and is compared with the code). That no callable is registered twice "
               "for one event - the hypothesis under which a dispatch calls each LISTENER once and get_listener_priority "
               "is determined (dispatch_each_once_decided, query_get_priority_decided) - is decided by the model on the "
               "log of every generated history (answer field wf.reg_once, theorem reg_once_decides) and compared with "
-              "what the history says.")
+              "what the history says (both answers occur).")
 LEAN_MODULES = ["Clikit.Props.C12"]
 REQUIRED_THEOREMS = ["Clikit.Props.C12." + n for n in (
     "specOrder_perm", "specOrder_mem", "specOrder_sorted", "specOrder_stable", "specOrder_unique",
@@ -70,7 +81,7 @@ REQUIRED_THEOREMS = ["Clikit.Props.C12." + n for n in (
     "query_get_priority", "query_get_priority_unique", "pure_queries", "specRun_acceptable",
     "run_eq_specRun", "cache_inv_total", "reg_once_decides", "dispatch_each_once_decided",
     "query_get_priority_decided", "custom_event_faithful", "dispatch_budget_spec", "dispatch_budget_zero",
-    "dispatch_budget_large")]
+    "dispatch_budget_large", "registration_called_per_registration")]
 RULE = ("histories over {register(2 events x 3 priorities x stops?), dispatch(3 events), get_listeners(3 events | none)} "
         "enumerated exhaustively: quick - every history up to length 4, and up to length 3 with dispatches of an "
         "already stopped event; thorough - every history up to length 4, every history of length 5 up to swapping "
@@ -79,24 +90,30 @@ RULE = ("histories over {register(2 events x 3 priorities x stops?), dispatch(3 
         "and two user subclasses implementing stop_propagation/is_propagation_stopped themselves (state forwarded to "
         "a wrapped event, state under an own attribute), dispatch by dispatch; plus every history up to length 3 "
         "(thorough 4) with a dispatch of a user event that reports itself stopped after 1 or 2 listener calls; "
+        "plus every history up to length 4 (thorough 5) over {register a new listener, register AGAIN the oldest / the "
+        "newest listener (3 priorities; the newest also for the other event), dispatch, get_listeners} that contains "
+        "a repeated registration; "
         "each followed by the pure queries (has_listeners x 4, "
         "get_listener_priority x 2 events x every listener and a stranger); plus seeded random histories up to "
         "length 40 over the full alphabet with queries interleaved, priorities drawn per case from a wider pool, "
         "default-priority registrations, dispatch without an event object and with all the event classes above "
-        "(budgets 0..4); a case is non-trivial when some "
+        "(budgets 0..4), and in half of the cases a share (15 % / 40 %) of the registrations re-using a callable "
+        "that is already registered (same function object / an equal bound method of the same owner); a case is non-trivial when some "
         "dispatch/get_listeners sees an event with >= 2 registrations; distinct = distinct history")
 TRUSTED_BASE = [
     "Lean 4.33 kernel; axioms propext, Classical.choice, Quot.sound only (audited per theorem on every run)",
     "lean/Clikit/Model/Dispatcher.lean: hand-written model of event_dispatcher.py/event.py (dict insertion order, "
     "_sorted cache, stable sort via List.mergeSort by the key regenerated from the source); its fidelity is sampled by the correspondence",
     "tools/genparts/c12.py: ast-based extraction of the sort key lambda and of the default priority (Gen/C12.lean)",
-    "harness/props/c12.py: recording listeners, the user event classes (ForwardingEvent, OwnFlagEvent, BudgetEvent), canonicalisation (listener objects -> ids, get_listeners() dict compared as a mapping)",
+    "harness/props/c12.py: recording listeners (function objects and bound methods of owner objects), the user event classes (ForwardingEvent, OwnFlagEvent, BudgetEvent), canonicalisation (listener objects -> ids, get_listeners() dict compared as a mapping)",
     "CPython: dict insertion order, stability of sorted()",
 ]
 ASSUMPTIONS = [
-    "listeners do not raise, do not call back into the dispatcher and each callable is registered once (the Lean theorems "
-    "also cover a callable registered several times; the correspondence does not generate it; 'once per event' is "
-    "decided by the model on every history - wf.reg_once - and compared with the history)",
+    "listeners do not raise and do not call back into the dispatcher",
+    "a callable registered n times for an event counts as n listeners ('each once' = one call per registration, at the "
+    "rank of that registration); get_listener_priority of a callable registered for one event under several priorities "
+    "may answer any of them ('once per event' is decided by the model on every history - wf.reg_once - and compared "
+    "with the history)",
     "event names and priorities matter only through equality resp. order (histories use 3 names and 3 priorities per case)",
     "'stops propagation' is judged by the event's public protocol: propagation is stopped when "
     "event.is_propagation_stopped() answers true (user event classes may override it and stop_propagation())",
@@ -117,6 +134,8 @@ PRIO_POOL = [-100, -7, -3, -2, -1, 0, 1, 2, 3, 7, 100]
 SCOPE = {"quick": (4, 0, 3, 0), "thorough": (4, 5, 4, 6)}
 # histories containing a dispatch of a budget event ("lim:1", "lim:2") up to this length
 SCOPE_LIM = {"quick": 3, "thorough": 4}
+# histories containing a repeated registration of a callable (see _again_histories) up to this length
+SCOPE_AGAIN = {"quick": 4, "thorough": 5}
 # event objects: stock Event and user subclasses implementing the stop protocol themselves
 EV_FRESH = ["fresh", "fwd", "own"]
 EV_STOPPED = ["stopped", "fwd-stopped", "own-stopped"]
@@ -167,6 +186,48 @@ def _materialise(seq, ctr=None):
     return {"ops": ops, "probe": True}
 
 
+def _again_histories(n):
+    """every history of length n over {register a NEW listener for event 0 (3 priorities x stops?), register AGAIN the
+    oldest / the newest listener so far for event 0 (3 priorities), the newest for event 1, dispatch(0), get_listeners(0)}
+    that registers some callable more than once (distinct as histories)"""
+    letters = [("reg", 0, p, s) for p in PRIOS for s in (False, True)]
+    letters += [("again", 0, p, w) for p in PRIOS for w in (0, 1)] + [("again", 1, 0, 1)]
+    letters += [("disp", 0, "fresh"), ("get", 0)]
+    seen = set()
+    for seq in itertools.product(letters, repeat=n):
+        if not any(o[0] == "again" for o in seq):
+            continue
+        made, ops = [], []
+        for o in seq:
+            if o[0] == "reg":
+                made.append((len(made), o[3]))
+                ops.append(("reg", o[1], o[2], o[3], made[-1][0]))
+            elif o[0] == "again":
+                if not made:
+                    break
+                k, s = made[0] if o[3] == 0 else made[-1]
+                ops.append(("reg", o[1], o[2], s, k))
+            else:
+                ops.append(o)
+        else:
+            key = repr(ops)
+            if key not in seen:
+                seen.add(key)
+                yield ops
+
+
+def _materialise_ids(ops, ctr):
+    """like _materialise for operations that already carry their listener ids"""
+    res = []
+    for o in ops:
+        if o[0] == "disp" and o[2] in ("fresh", "stopped"):
+            ctr[0] += 1
+            res.append(["disp", o[1], (EV_FRESH if o[2] == "fresh" else EV_STOPPED)[ctr[0] % 3]])
+        else:
+            res.append(list(o))
+    return {"ops": res, "probe": True}
+
+
 def _canonical(seq):
     """representative under swapping the names of the two registering events: the first
     operation that names one of them names event 0"""
@@ -192,6 +253,10 @@ def _exhaustive(tier):
         for seq in itertools.product(lim, repeat=n):
             if any(o[0] == "disp" and o[2] != "fresh" for o in seq):
                 yield _materialise(seq, ctr)
+    # the same callable registered more than once
+    for n in range(2, SCOPE_AGAIN[tier] + 1):
+        for ops in _again_histories(n):
+            yield _materialise_ids(ops, ctr)
     for n in range(full + 1, sym + 1):
         for seq in itertools.product(a, repeat=n):
             if _canonical(seq):
@@ -221,12 +286,19 @@ def _random_case(rng):
     n = rng.randint(1, 40)
     prios = rng.sample(PRIO_POOL, 3) if rng.random() < 0.7 else list(PRIOS)
     p_stop = rng.choice([0.0, 0.15, 0.3, 0.6])
+    p_again = rng.choice([0.0, 0.0, 0.15, 0.4])      # share of registrations re-using a callable registered before
     ops, k = [], 0
+    stops = []
     for _ in range(n):
         r = rng.random()
         if r < 0.40:
             p = None if rng.random() < 0.1 else rng.choice(prios)
-            ops.append(["reg", rng.choice(REG_EVENTS), p, rng.random() < p_stop, k])
+            if k and rng.random() < p_again:
+                j = rng.randrange(k)
+                ops.append(["reg", rng.choice(REG_EVENTS), p, stops[j], j])
+                continue
+            stops.append(rng.random() < p_stop)
+            ops.append(["reg", rng.choice(REG_EVENTS), p, stops[k], k])
             k += 1
         elif r < 0.65:
             ops.append(["disp", rng.randrange(3), _random_event(rng)])
@@ -254,7 +326,13 @@ def exhaustive(tier):
 
 
 def _stops_of(case):
-    return {o[4]: bool(o[3]) for o in case["ops"] if o[0] == "reg"}
+    """listener id -> does it call stop_propagation(): what the FIRST registration of the id says (a callable that is
+    registered again is the same callable)"""
+    res = {}
+    for o in case["ops"]:
+        if o[0] == "reg":
+            res.setdefault(o[4], bool(o[3]))
+    return res
 
 
 def expand(case):
@@ -263,7 +341,7 @@ def expand(case):
     if not case.get("probe"):
         return ops
     ops = list(ops)
-    ids = sorted(o[4] for o in ops if o[0] == "reg")
+    ids = sorted(set(o[4] for o in ops if o[0] == "reg"))
     stranger = (ids[-1] + 1) if ids else 0
     for e in (None, 0, 1, 2):
         ops.append(["has", e])
@@ -497,20 +575,18 @@ def impl_view(case, obs):
 
 # --------------------------------------------------------------------------- model
 def model_requests(case):
-    stops = None
+    stops = _stops_of(case)
     ops = []
     for o in expand(case):
         k = o[0]
         if k == "reg":
-            ops.append(["add", o[1], o[4], bool(o[3]), o[2]])      # priority null: the model uses the default
+            ops.append(["add", o[1], o[4], stops[o[4]], o[2]])     # priority null: the model uses the default
         elif k == "disp":
             if ev_limit(o[2]) is not None:
                 ops.append(["dispatchN", o[1], ev_limit(o[2])])
             else:       # a class implementing the protocol faithfully is the stock flag (custom_event_faithful)
                 ops.append(["dispatch", o[1], o[2] in EV_STOPPED])
         elif k == "prio":
-            if stops is None:
-                stops = _stops_of(case)
             ops.append(["prio", o[1], o[2], stops.get(o[2], False)])
         else:
             ops.append(o)
@@ -532,33 +608,60 @@ def model_obs(case, answers):
         return {"model_raised": a.get("err"), "spec": _canon_outs(a.get("spec", []))}
     outs = _canon_outs(a["ok"]["outs"])
     spec = _canon_outs(a["ok"]["spec"])
-    return {"outs": outs, "spec_agrees": outs == spec, "reg_once": (a.get("wf") or {}).get("reg_once")}
+    return {"outs": outs, "spec_agrees": _spec_agrees(case, outs, spec), "reg_once": (a.get("wf") or {}).get("reg_once")}
+
+
+def _spec_agrees(case, outs, spec):
+    """the outputs of the model of the code are the outputs of the abstract specification; the one operation the
+    specification leaves open (Lean: `determined`, theorem query_get_priority) is get_listener_priority of a callable
+    registered for the event under several priorities: there the model must answer one of them"""
+    if outs == spec:
+        return True
+    if len(outs) != len(spec):
+        return False
+    dp = default_priority()
+    prios = {}
+    for o, x, y in zip(expand(case), outs, spec):
+        if o[0] == "reg":
+            prios.setdefault((o[1], o[4]), set()).add(dp if o[2] is None else o[2])
+        if x != y:
+            open_ = o[0] == "prio" and len(prios.get((o[1], o[2]), ())) > 1
+            if not (open_ and x in prios[(o[1], o[2])]):
+                return False
+    return True
 
 
 # --------------------------------------------------------------------------- the property statement
-def _before(a, b):
-    """registration a = (prio, seq) is called before b: higher priority first, then registration order"""
-    return a[0] > b[0] or (a[0] == b[0] and a[1] < b[1])
+def _demanded(regs):
+    """the registrations (listener id, priority, registration number) of one event in the order the statement demands:
+    highest priority first, registration order among equal priorities - one entry PER REGISTRATION (a callable that was
+    registered twice is two listeners of the event)"""
+    return sorted(regs, key=lambda r: (-r[1], r[2]))
 
 
 def _check_order(seq, regs, what):
-    """seq (listener ids) must consist of distinct listeners registered for the event, in the demanded order"""
-    if len(set(seq)) != len(seq):
-        return "%s: a listener appears twice: %r" % (what, seq)
+    """seq (listener ids, one per call / list entry) must walk through the demanded order of the registrations from
+    its start: every entry is the listener of the registration due at that rank"""
+    want = _demanded(regs)
+    known = set(r[0] for r in regs)
     for k in seq:
-        if k not in regs:
+        if k not in known:
             return "%s: listener %r is not registered for this event" % (what, k)
-    for x, y in zip(seq, seq[1:]):
-        if not _before(regs[x], regs[y]):
-            return "%s: listener %d (priority %d, registration #%d) runs before listener %d (priority %d, registration #%d)" % (
-                what, x, regs[x][0], regs[x][1], y, regs[y][0], regs[y][1])
+    if len(seq) > len(want):
+        return "%s: %d entries %r for %d registration(s) - a registration is used more than once" % (
+            what, len(seq), seq, len(want))
+    for i, k in enumerate(seq):
+        w = want[i]
+        if k != w[0]:
+            return ("%s: position %d is listener %r, but the registration due there is listener %d (priority %d, "
+                    "registration #%d); got %r, demanded order %r") % (what, i, k, w[0], w[1], w[2], seq, [r[0] for r in want])
     return None
 
 
 def oracle(case, obs):
     dp = default_priority()
     stops = _stops_of(case)
-    regs = {0: {}, 1: {}, 2: {}}       # event -> {listener id: (priority, registration number)}
+    regs = {0: [], 1: [], 2: []}       # event -> [(listener id, priority, registration number)] in registration order
     nreg = 0
     ops = expand(case)
     outs = obs["outs"]
@@ -572,7 +675,7 @@ def oracle(case, obs):
         if kind == "reg":
             if out is not None:
                 return "%s: add_listener %s" % (where, out)
-            regs[o[1]][o[4]] = (dp if o[2] is None else o[2], nreg)
+            regs[o[1]].append((o[4], dp if o[2] is None else o[2], nreg))
             nreg += 1
         elif kind == "disp":
             r = regs[o[1]]
@@ -585,29 +688,26 @@ def oracle(case, obs):
                 if not out_stopped:
                     return "%s: the returned event is no longer stopped" % where
                 continue
+            # the calls are the start of the demanded order (one call per registration, at its rank) ...
             v = _check_order(called, r, where)
             if v:
                 return v
-            # the call after which the event's protocol answers "stopped": the listener called
+            # ... and end with the call after which the event's protocol answers "stopped": the listener called
             # stop_propagation(), or (budget event) it was the N-th listener to see the event
             limit = ev_limit(o[2])
-            stoppers = [k for i, k in enumerate(called) if stops.get(k, False) or (limit is not None and i + 1 >= limit)]
-            if stoppers and stoppers[0] != called[-1]:
-                return "%s: propagation was stopped at listener %d (%s) but %r were still called" % (
-                    where, stoppers[0],
-                    "it called stop_propagation()" if stops.get(stoppers[0], False) else "the event's is_propagation_stopped() is true after %d calls" % limit,
-                    called[called.index(stoppers[0]) + 1:])
-            missing = [k for k in r if k not in called]
-            if stoppers:
-                last = called[-1]
-                early = [k for k in missing if not _before(r[last], r[k])]
-                if early:
-                    return "%s: listener(s) %r should have run before the stopping listener %d but were not called" % (where, early, last)
-            elif missing:
-                return "%s: nobody stopped propagation but listener(s) %r were not called" % (where, sorted(missing))
+            stoppers = [n for n, k in enumerate(called) if stops.get(k, False) or (limit is not None and n + 1 >= limit)]
+            if stoppers and stoppers[0] != len(called) - 1:
+                k = called[stoppers[0]]
+                return "%s: propagation was stopped at call #%d, listener %d (%s) but %r were still called" % (
+                    where, stoppers[0], k,
+                    "it called stop_propagation()" if stops.get(k, False) else "the event's is_propagation_stopped() is true after %d calls" % limit,
+                    called[stoppers[0] + 1:])
+            if not stoppers and len(called) < len(r):
+                return "%s: nobody stopped propagation but only %r of the demanded %r were called" % (
+                    where, called, [x[0] for x in _demanded(r)])
             if out_stopped != bool(stoppers):
                 return "%s: returned event stopped=%s, but %s" % (
-                    where, out_stopped, "propagation was stopped at listener %d" % stoppers[0] if stoppers else "nothing stopped it")
+                    where, out_stopped, "propagation was stopped at listener %d" % called[stoppers[0]] if stoppers else "nothing stopped it")
         elif kind == "has":
             want = any(regs[e] for e in regs) if o[1] is None else bool(regs[o[1]])
             if out is not want:
@@ -627,21 +727,37 @@ def oracle(case, obs):
                     if v:
                         return v
                     if len(ls) != len(regs[e]):
-                        return "%s: event %d lists %r, registered are %r" % (where, e, ls, sorted(regs[e]))
+                        return "%s: event %d lists %r, registered are %r" % (where, e, ls, [x[0] for x in _demanded(regs[e])])
             else:
                 v = _check_order(out, regs[o[1]], where)
                 if v:
                     return v
                 if len(out) != len(regs[o[1]]):
-                    return "%s: lists %r, registered are %r" % (where, out, sorted(regs[o[1]]))
+                    return "%s: lists %r, registered are %r" % (where, out, [x[0] for x in _demanded(regs[o[1]])])
         elif kind == "prio":
-            want = regs[o[1]][o[2]][0] if o[2] in regs[o[1]] else None
-            if out != want or isinstance(out, bool):
-                return "%s: get_listener_priority is %r, required %r" % (where, out, want)
+            # a callable registered for the event under several priorities: the statement does not say which one
+            have = sorted(set(x[1] for x in regs[o[1]] if x[0] == o[2]))
+            if isinstance(out, bool) or (out is None) != (not have) or (have and out not in have):
+                return "%s: get_listener_priority is %r, required %s" % (
+                    where, out, "None" if not have else ("%r" % have[0] if len(have) == 1 else "one of %r" % have))
     return None
 
 
 # --------------------------------------------------------------------------- statistics
+def _again(case):
+    """"" / " again" (some callable is registered more than once) / " again@other-prio" (for one event under two
+    priorities)"""
+    seen, res = {}, ""
+    for o in case["ops"]:
+        if o[0] == "reg":
+            if any(k == o[4] for (e, k) in seen):
+                res = res or " again"
+            if (o[1], o[4]) in seen and seen[(o[1], o[4])] != {o[2]}:
+                return " again@other-prio"
+            seen.setdefault((o[1], o[4]), set()).add(o[2])
+    return res
+
+
 def _profile(case):
     """(number of regs, number of dispatches, max number of registrations seen by a dispatch/get)"""
     cnt = {0: 0, 1: 0, 2: 0}
@@ -679,7 +795,7 @@ def bucket(case, obs):
     evs = [o[2] for o in case["ops"] if o[0] == "disp"]
     c = " budget-event" if any(ev_limit(x) is not None for x in evs) else (
         " user-event" if any(x not in ("none", "fresh", "stopped") for x in evs) else "")
-    return "len=%s regs=%s %s%s" % (_lenb(len(case["ops"])), nreg if nreg < 4 else "4+", d, c)
+    return "len=%s regs=%s %s%s%s" % (_lenb(len(case["ops"])), nreg if nreg < 4 else "4+", d, c, _again(case))
 
 
 # --------------------------------------------------------------------------- minimisation / search
@@ -738,3 +854,10 @@ def neighbours(case):
     for i in range(len(ops) + 1):
         for p in PRIOS:
             yield mk(ops[:i] + [["reg", 0, p, False, nid]] + ops[i:])
+    # a callable that is already registered is registered once more
+    st = _stops_of(case)
+    for i in range(1, len(ops) + 1):
+        for k in sorted(set(o[4] for o in ops[:i] if o[0] == "reg"))[:3]:
+            for e in REG_EVENTS:
+                for p in PRIOS:
+                    yield mk(ops[:i] + [["reg", e, p, st[k], k]] + ops[i:])
